@@ -144,7 +144,9 @@ func defaultGenerateBasename(ctx context.Context, cops ChangeOps) (string, error
 	if release == "" {
 		release = DefaultEndorsementBasename
 	}
-	basename := fmt.Sprintf("%s.%s", release, endorsementFileExt)
+	// The manifest indexes endorsement files by this name, so it must be the canonical spelling of
+	// the file it denotes: "x/../rc0" and "rc0" are the same file and must be the same entry.
+	basename := path.Clean(fmt.Sprintf("%s.%s", release, endorsementFileExt))
 	path := releasePath(ctx, basename)
 	exists, err := fileExists(ctx, cops, path)
 	if err != nil {
